@@ -23,8 +23,10 @@ class StepSocket(sim.SimSocket):
     def readable(self):
         return bool(self.inbox) or self.eof
 
-    def recv(self, n):
+    def recv(self, n, flags=0):
         import socket as _socket
+        if flags & _socket.MSG_WAITALL:
+            return sim.wait_all(self, n)
         if self.closed:
             raise _socket.error('closed')
         if self.inbox:
@@ -186,8 +188,8 @@ class LiveDulModule(object):
             cls.next_socket = sock               # AE-1 "connects" this one
         with sim._no_tracing():
             prov = LiveProvider(store_in_file, get_file_cb, sock if dul_socket is not None else None, max_pdu_length)
-            prov.to_service_user = sim.SimQueue()
-            prov.from_service_user = sim.SimQueue()
+            prov.to_service_user = sim.SimQueue(getattr(prov.to_service_user, 'maxsize', 0))
+            prov.from_service_user = sim.SimQueue(getattr(prov.from_service_user, 'maxsize', 0))
         pump = Pump(prov, sock)
         prov._vt_pump = pump
         prov._vt_sock = sock
